@@ -466,7 +466,7 @@ func c19RunReceiver(dir string, size int64, c uint32, resume bool, idxs []uint64
 // c19ProbeReceiver: the receiver must place chunk n-1 (exact length) at offset (n-1)*c of
 // a file of exactly `size` bytes, record bit n-1 of n in its resume metadata, and reject
 // chunk index n.
-func c19ProbeReceiver(dir string, size int64, c uint32, resume bool) (string, string, bool) {
+func c19ProbeReceiver(dir string, size int64, c uint32, resume, stale bool) (string, string, bool) {
 	ref := c19Ref(size, c)
 	if !ref.fits || ref.n == 0 {
 		return "", "", false
@@ -491,6 +491,26 @@ func c19ProbeReceiver(dir string, size int64, c uint32, resume bool) (string, st
 		resume = false // a bitmap of n bits would dominate the probe (up to 512 MiB); metadata counts are covered by c19CheckPure
 	}
 	desc := fmt.Sprintf("size=%d chunk=%d n=%d resume=%v", size, c, ref.n, resume)
+	if stale && resume && size <= 1<<30 {
+		// state of an earlier attempt made with ANOTHER chunk size: a full-length data file and
+		// metadata (created by the production function) that marks chunk 0 of that other tiling;
+		// the new attempt must end with metadata of its own geometry
+		other := c + 1
+		if c > 2 && size%3 == 0 {
+			other = c - 1
+		} else if size%3 == 1 && c < 1<<30 {
+			other = c * 2
+		}
+		if f, err := os.Create(filepath.Join(dir, "f.bin")); err == nil {
+			f.Truncate(size)
+			f.Close()
+		}
+		if old, err := LoadOrCreateSidecarWithFallback(SidecarPath(dir, "", "c19id"), "", "c19id", size, other); err == nil {
+			old.MarkComplete(0)
+			old.Flush()
+			desc += fmt.Sprintf(" stale-metadata-of-chunk-size=%d", other)
+		}
+	}
 	beyond := ref.n <= 1<<32-2
 	var rerr error
 	var payloads map[uint64][]byte
@@ -548,8 +568,8 @@ func c19ProbeReceiver(dir string, size int64, c uint32, resume bool) (string, st
 		if err != nil {
 			return "receiver-metadata-missing", desc + ": " + err.Error(), true
 		}
-		if uint64(sc.TotalChunks) != ref.n {
-			return "metadata-chunk-count", fmt.Sprintf("resume metadata says %d chunks, reference %d (%s)", sc.TotalChunks, ref.n, desc), true
+		if uint64(sc.TotalChunks) != ref.n || sc.ChunkSize != c {
+			return "metadata-chunk-count", fmt.Sprintf("resume metadata says %d chunks of %d bytes, reference %d of %d (%s)", sc.TotalChunks, sc.ChunkSize, ref.n, c, desc), true
 		}
 		if !sc.IsComplete(uint32(ref.n-1)) || sc.bitmap.CountSet() != 1 {
 			return "metadata-chunk-index", fmt.Sprintf("resume metadata does not mark exactly chunk n-1 (%s)", desc), true
@@ -563,9 +583,13 @@ func TestVerifC19Receiver(t *testing.T) {
 	defer rec.Flush()
 	dir := filepath.Join(verifkit.ScratchDir(t, "c19"), "out")
 	sh, nsh := verifkit.Shard()
-	run := func(f verifkit.Failer, size int64, c uint32, resume bool, class string) {
+	run := func(f verifkit.Failer, size int64, c uint32, resume, stale bool, class string) {
 		t0 := time.Now()
-		sig, detail, ran := c19ProbeReceiver(dir, size, c, resume)
+		stale = stale && resume
+		sig, detail, ran := c19ProbeReceiver(dir, size, c, resume, stale)
+		if stale && ran {
+			rec.Class("stale-metadata-of-other-chunk-size")
+		}
 		if d := time.Since(t0); d > 2*time.Second {
 			rec.Note("slow probe (%.1fs): size=%d chunk=%d resume=%v sig=%s %s", d.Seconds(), size, c, resume, sig, detail)
 		}
@@ -598,15 +622,15 @@ func TestVerifC19Receiver(t *testing.T) {
 			if k%nsh != sh {
 				continue
 			}
-			run(t, s, c, k%2 == 0, "small")
+			run(t, s, c, k%2 == 0, k%6 == 0, "small")
 		}
 	}
 	// lattice with sparse outputs
 	if sh == 0 {
 		for _, c := range []uint32{1, 3, 4096, 65536, 1 << 20} {
 			for _, s := range []int64{1<<31 - 1, 1 << 31, 1<<31 + 1, 1<<32 - 1, 1 << 32, 1<<32 + 1, 1 << 40, c19MaxSize - 1, c19MaxSize} {
-				run(t, s, c, true, "sparse-lattice")
-				run(t, s, c, false, "sparse-lattice")
+				run(t, s, c, true, s == 1<<31, "sparse-lattice")
+				run(t, s, c, false, false, "sparse-lattice")
 			}
 		}
 	}
@@ -624,7 +648,8 @@ func TestVerifC19Receiver(t *testing.T) {
 			v = big.NewInt(c19MaxSize)
 		}
 		resume := rapid.Bool().Draw(rt, "resume")
-		run(rt, v.Int64(), c, resume, "random")
+		stale := rapid.IntRange(0, 2).Draw(rt, "stale_metadata") == 0
+		run(rt, v.Int64(), c, resume, stale, "random")
 		if rec.SampleWanted() {
 			rec.Sample(map[string]any{"size": v.Int64(), "chunk": c, "resume": resume, "probe": "receiver: chunk n-1 accepted at (n-1)*c, chunk n rejected"})
 		}
